@@ -196,7 +196,7 @@ def h_write_input(ctx, program="gaussian", natom=2, tname="default", chg="set", 
         ctx.oblige("one-geometry-line-per-atom", len(parsed["geom"]) == natom and
                    all(l.strip() == "" or l.strip() in ("*", "--") or l.startswith(("END", "extra")) for l in parsed["after"][:1]),
                    cls=cls)
-        for i in probes if natom > 3 else range(natom):
+        for i in range(min(natom, len(parsed["geom"]))):      # every atom: the concrete filler atoms pin down the order
             line = parsed["geom"][i]
             if custom_atom_line:
                 w = line.split()
